@@ -132,9 +132,9 @@ Definition way_geom_ok (d : osm) (w : way) (inwaypass : bool) (g : geom) : bool 
   let c := spec_coords d w in
   (2 <=? List.length c)%nat &&
   match g with
-  | GLine l => negb (w_area w) && line_eqb l c
+  | GLine l => negb (way_area w) && line_eqb l c
   | GPoly (ring :: holes) =>
-      (if inwaypass then w_area w && is_nil holes else outer_member_of_mp d (w_id w))
+      (if inwaypass then way_area w && is_nil holes else outer_member_of_mp d (w_id w))
       && way_ring_ok c ring
   | _ => false
   end.
@@ -170,6 +170,33 @@ Definition route_tainted (d : osm) (r : relation) : bool :=
                               end
                     | _ => false
                     end) (r_members r).
+(* ---- tainted: multipolygon / boundary relations ---- *)
+Definition mp_member_taints (d : osm) (m : member) : bool :=
+  match m_type m with
+  | TWay =>
+      if String.eqb (m_role m) "outer" || String.eqb (m_role m) "inner" then
+        match way_lookup d (m_ref m) with
+        | Some w => existsb (fun wn => negb (is_some (resolve d wn))) (w_nodes w)
+        | None => match m_nodes m with
+                  | [] => true
+                  | ns => existsb (fun wn => negb (is_some (resolve d wn))) ns
+                  end
+        end
+      else false
+  | _ => false
+  end.
+(* a multipolygon feature is tainted iff an inner/outer way member is missing (and not
+   annotated with its nodes) or has a node without coordinates *)
+Definition mp_tainted (d : osm) (r : relation) : bool := existsb (mp_member_taints d) (r_members r).
+
+(* some multipolygon/boundary relation with outer way member [id] explains the flag *)
+Definition adopted_taint_ok (d : osm) (id : Z) (t : bool) : bool :=
+  existsb (fun r =>
+    let tt := tag_find (r_tags r) "type" in
+    (String.eqb tt "multipolygon" || String.eqb tt "boundary") &&
+    existsb (fun m => etype_eqb (m_type m) TWay && (m_ref m =? id) && String.eqb (m_role m) "outer")
+            (r_members r) && Bool.eqb t (mp_tainted d r)) (relations d).
+
 Definition geom_lines (g : geom) : option (list (list pt)) :=
   match g with
   | GLine l => Some [l]
@@ -202,11 +229,12 @@ Definition feature_ok (o : opts) (d : osm) (inwaypass : bool) (f : feature) : bo
       | Some w =>
           let unres := existsb (fun wn => negb (is_some (resolve d wn))) (w_nodes w) in
           carries o d f (w_tags w) (w_meta w) true && way_geom_ok d w inwaypass (f_geom f)
-          && (if inwaypass then Bool.eqb (f_tainted f) unres else implb unres (f_tainted f))
+          && (if inwaypass then Bool.eqb (f_tainted f) unres
+              else implb unres (f_tainted f) && adopted_taint_ok d (f_ref f) (f_tainted f))
       | None =>
           (* a way known only from the annotated nodes of an outer multipolygon member *)
           negb inwaypass && outer_member_of_mp d (f_ref f)
-          && carries o d f [] meta0 false
+          && carries o d f [] meta0 false && adopted_taint_ok d (f_ref f) (f_tainted f)
           && match f_geom f with GPoly _ => true | _ => false end
       end
   | TRel =>
@@ -216,6 +244,7 @@ Definition feature_ok (o : opts) (d : osm) (inwaypass : bool) (f : feature) : bo
           (let tt := tag_find (r_tags r) "type" in
            if String.eqb tt "route" then route_geom_ok d r f
            else (String.eqb tt "multipolygon" || String.eqb tt "boundary") &&
+                Bool.eqb (f_tainted f) (mp_tainted d r) &&
                 match f_geom f with GPoly _ | GMultiPoly _ => true | _ => false end)
       | None => false
       end
